@@ -243,6 +243,13 @@ func WalkPaths(fn *ssa.Function, maxPaths int) ([]PathSummary, string) {
 				for _, a := range CallArgs(x) {
 					as = append(as, T(a))
 				}
+				if g := x.Common().StaticCallee(); g != nil && inlineable(g) && effectFree(g) {
+					// a value helper extracted later (inline.go): its result is the expression it computes
+					if rt, ok := singleReturnTerm(g); ok {
+						f.env[x] = substParams(rt, as)
+						continue
+					}
+				}
 				s := CalleeName(x) + "(" + strings.Join(as, ", ") + ")"
 				f.env[x] = s
 				f.effs = append(f.effs, "call "+s)
